@@ -93,11 +93,15 @@ def run(ctx: Ctx, dom: FlagDomain) -> bool:
         # ---- traversal: a nested unacceptable call must be found wherever it sits
         ctxs = [FlagV(b) for b in sorted({dom.members["Dagger"], dom.members["Control"], dom.mask})]
         for kind, F, inner_kind, where, other_q, inner_ok in itertools.product(kinds, ctxs, kinds, ("arg0", "arg1", "callee"), (False, True), (False, True)):
-            if where == "callee" and kind != "LocalCall":
-                continue
+            if where == "callee" and kind == "GlobalCall":
+                continue  # a global call names its callee by definition id: there is no callee expression
             n_trav += 1
             inner = _call(inner_kind, full if inner_ok else none, [_arg(True)])
-            if where == "callee":
+            if where == "callee" and kind == "TensorCall":
+                # the callee of a tensor call is a tuple expression whose elements may be calls
+                tup = N("Tuple", elts=[inner, N("Name", id="g", __type__=_fn_ty(full))], __type__=_ty(False))
+                outer = _call(kind, full, [_arg(other_q)], func=tup)
+            elif where == "callee":
                 outer = _call(kind, full, [_arg(other_q)], func=inner)
             else:
                 args = [_arg(other_q), inner] if where == "arg1" else [inner, _arg(other_q)]
